@@ -107,7 +107,9 @@ def run(ctx):
     nontrivial = 0
     for mi in range(nmodels):
         big = (mi % 8 == 3)
-        m = lc.gen_model(rng, max_order=ctx.pick(5, 6), max_vocab=ctx.pick(8, 30), big=big)
+        hub = (mi % 16 == 6)
+        m = lc.gen_model(rng, max_order=ctx.pick(5, 6), max_vocab=ctx.pick(8, 30), big=big, hub=hub)
+        big = big or hub
         sess = lc.Session(ctx, m, "m%d" % mi)
         if big:
             qs = lc.ngram_queries(m) + lc.gen_queries(rng, m, 40)
